@@ -141,7 +141,8 @@ def harness(*args, timeout=3600, check=True):
 # ---- TLC -------------------------------------------------------------------------------------
 def tlc(module, cfg, metadir, workers=8, env=None, timeout=1800, extra=(), coverage=False, simulate=None, seed=None):
     e = dict(os.environ)
-    e["JAVA_TOOL_OPTIONS"] = "-Xss1g"
+    # trace validators run many at a time (one worker each): bound their heaps; model-checking runs get more
+    e["JAVA_TOOL_OPTIONS"] = "-Xss1g -Xmx3g" if workers == 1 else "-Xss1g -Xmx12g"
     if env:
         e.update({k: str(v) for k, v in env.items()})
     cmd = ["timeout", str(timeout), "tlc", "-workers", str(workers), "-metadir", metadir, "-cleanup", "-noGenerateSpecTE",
